@@ -322,7 +322,7 @@ def c11_jobs(Job, tier):            # noqa: F811  (replaces the placeholder abov
 
 
 def c14_extra(Job, tier):
-    return write_span_jobs(Job) + space_jobs(Job)
+    return write_span_jobs(Job) + space_jobs(Job) + spans_jobs(Job)
 
 
 # ---- check_track_is_supported (C06 iii, C07) -------------------------------------------------------------------------
@@ -526,3 +526,8 @@ def hints_jobs(Job, cfg=CFG_NDEBUG, tier="quick"):
     return [Job("D_candidate_hints_%s" % cfg[0], "harness/dfs_hints.c", "h_candidate_hints", enforce=["candidate_hints"],
                 defines=list(cfg[1]), extract=ext(["candidate_hints"]), tier=tier,
                 cbmc=["--unwindset", "lit_ext.0:6", "--unwinding-assertions"])]
+
+
+def spans_jobs(Job, cfg=CFG_NDEBUG, tier="quick"):
+    return [Job("D_extract_unused_spans_%s" % cfg[0], "harness/dfs_spans.c", "h_spans", enforce=["extract_unused_spans"], replace=["sector_count"], loops=True,
+                defines=list(cfg[1]), extract=ext(["sector_count", "extract_unused_spans"]), tier=tier, cover=True, solver="portfolio")]
